@@ -158,9 +158,12 @@ Gs2(s) ==
 (* data of the first packet: (key 00 value 00)* 00; then section 01 = player fields, 02 = team        *)
 (* fields; a field is: name 00, index of the first value, values 00 ..., 00.                          *)
 Gs3Known == <<"hostname", "mapname", "password", "gametype", "gamever", "maxplayers", "minplayers", "numplayers", "tournament">>
-Gs3Shapes == [players : Counts, teams : {0, 2}, extras : {0, 2}, opt : BOOLEAN, num : {"absent", "equal", "more"}, packets : 1 .. 3]
-\* every packet carries something: a server does not send empty packets
-Gs3Ok(s) == (s.packets > 1 => s.players >= s.packets)
+Gs3Shapes == [players : Counts, teams : {0, 2}, extras : {0, 2}, opt : BOOLEAN, num : {"absent", "equal", "more", "less", "zero"}, packets : 1 .. 3]
+\* every packet carries something: a server does not send empty packets; reporting fewer players than listed needs a listed player
+Gs3Ok(s) == (s.packets > 1 => s.players >= s.packets) /\ (s.num \in {"less", "zero"} => s.players >= 1)
+\* reported-vs-listed override (GameSpy 3, JC2M): players_online = max(reported, listed)
+Reported3(s) == CASE s.num = "more" -> s.players + 3 [] s.num = "less" -> s.players - 1 [] s.num = "zero" -> 0 [] OTHER -> s.players
+OnlineMax(s) == IF Reported3(s) > s.players THEN Reported3(s) ELSE s.players
 PlayerFields == <<<<"player_", "pname", "text">>, <<"score_", "pscore", "dec_i32">>, <<"ping_", "pping", "dec_u16">>,
                   <<"team_", "pteam", "dec_u8">>, <<"deaths_", "pdeaths", "dec_u32">>, <<"pid_", "ppid", "dec_u32">>,
                   <<"skill_", "pskill", "dec_u32">>>>
@@ -174,7 +177,7 @@ Gs3Vars(s) ==
   \o KVZ("gamever", "gamever", "text") \o KVZ("maxplayers", "max", "dec_u32")
   \o <<Txt("password"), Lit(NUL), Fopts("password", <<"0", "1", "true", "False">>), Lit(NUL)>>
   \o If(s.opt, KVZ("minplayers", "min", "dec_u8") \o <<Txt("tournament"), Lit(NUL), Fopts("tournament", <<"true", "false", "True">>), Lit(NUL)>>)
-  \o If(s.num # "absent", <<Txt("numplayers"), Lit(NUL), Txt(Str(IF s.num = "more" THEN s.players + 3 ELSE s.players)), Lit(NUL)>>)
+  \o If(s.num # "absent", <<Txt("numplayers"), Lit(NUL), Txt(Str(Reported3(s))), Lit(NUL)>>)
   \o Cat([i \in 1 .. s.extras |-> <<Fkey("xk" \o X(i), "", "keys", Gs3Known), Lit(NUL), Fmin("xv" \o X(i), "text", "", 0), Lit(NUL)>>])
   \o <<Lit(NUL)>>
 Gs3Head(id, last) == <<Lit(<<0, 0, 0, 0, 1>>), Txt("splitnum"), Lit(NUL), Lit(<<id + (IF last THEN 128 ELSE 0)>>), Lit(<<0>>)>>
@@ -192,7 +195,7 @@ Gs3(s) ==
   [packets |-> [j \in 1 .. s.packets |-> Gs3Packet(s, j)],
    expect |-> <<E(<<"name">>, "host"), E(<<"map">>, "map"), E(<<"game_mode">>, "gametype"), E(<<"game_version">>, "gamever"),
                 E(<<"players_maximum">>, "max"), Et(<<"has_password">>, "password", "truthy"),
-                Ec(<<"players_online">>, IF s.num = "more" THEN s.players + 3 ELSE s.players)>>
+                Ec(<<"players_online">>, OnlineMax(s))>>
               \o (IF s.opt THEN <<E(<<"players_minimum">>, "min"), Et(<<"tournament">>, "tournament", "truthy")>>
                   ELSE <<En(<<"players_minimum">>), Ec(<<"tournament">>, TRUE)>>)
               \o <<El(<<"players">>), El(<<"teams">>), Eo(<<"unused_entries">>)>>
@@ -208,18 +211,19 @@ Gs3(s) ==
 
 -----------------------------------------------------------------------------
 (* Just Cause 2: Multiplayer = GameSpy 3 single packet: 11 bytes skipped, variables, u16be count, (name, steam id, ping u16be)* *)
-Jc2mShapes == [players : Counts, num : {"absent", "equal", "more"}]
+\* reported-vs-listed override: players_online = max(reported, listed) (`less` / `zero`: the server reports fewer than it lists)
+Jc2mShapes == {s \in [players : Counts, num : {"absent", "equal", "more", "less", "zero"}] : s.num \in {"less", "zero"} => s.players >= 1}
 Jc2m(s) ==
   [items |-> <<Lit(<<0, 0, 0, 0, 1>>), Skip(11)>>
              \o KVZ("hostname", "host", "text") \o KVZ("version", "version", "text") \o KVZ("description", "desc", "text")
              \o KVZ("maxplayers", "max", "dec_u32")
              \o <<Txt("password"), Lit(NUL), Fopts("password", <<"0", "1", "true", "false">>), Lit(NUL)>>
-             \o If(s.num # "absent", <<Txt("numplayers"), Lit(NUL), Txt(Str(IF s.num = "more" THEN s.players + 3 ELSE s.players)), Lit(NUL)>>)
+             \o If(s.num # "absent", <<Txt("numplayers"), Lit(NUL), Txt(Str(Reported3(s))), Lit(NUL)>>)
              \o <<Lit(NUL), Lit(U16be(s.players))>>
              \o Cat([i \in 1 .. s.players |-> <<Fx("pname" \o X(i), "text", ""), Lit(NUL), Fx("psteam" \o X(i), "text", ""), Lit(NUL), F("pping" \o X(i), "u16be")>>]),
    expect |-> <<E(<<"name">>, "host"), E(<<"game_version">>, "version"), E(<<"description">>, "desc"), E(<<"players_maximum">>, "max"),
                 Et(<<"has_password">>, "password", "truthy"),
-                Ec(<<"players_online">>, IF s.num = "more" THEN s.players + 3 ELSE s.players), El(<<"players">>)>>
+                Ec(<<"players_online">>, OnlineMax(s)), El(<<"players">>)>>
               \o Cat([i \in 1 .. s.players |-> <<E(<<"players", i - 1, "name">>, "pname" \o X(i)), E(<<"players", i - 1, "steam_id">>, "psteam" \o X(i)),
                                                  E(<<"players", i - 1, "ping">>, "pping" \o X(i))>>]),
    entry |-> "jc2m"]
